@@ -22,6 +22,10 @@ EXTRA = [
     # the short forms without `instances of`, with and without a where clause, every cardinality word
     'select many xs from A where (selected.n > 1); select any y from B where (selected.v == 2); select many zs from A; select any w from B;',
     'select one o related by self->A[R1]; select any p related by self->A[R1] where (selected.n == 1); select many qs related by self->B[R1]->A[R1];',
+    # the remaining statement productions (found by measuring which p_* functions the corpus reaches)
+    'transform x = A::cop(p: 1); transform a.op(p: 1); send Port::msg(a: 1) to x;',
+    "create event instance e of E1 to A assigner; create event instance e2 of E1:'m'(x: 1) to self; generate E2(x: 1, y: 2, z: 3) to self; generate E3() to self;",
+    "relate a to b across R3.'p' using l; unrelate a from b across R3.'p' using l; x = 1;; y = 2;",
 ]
 NPROG = len(oalprogs.PROGRAMS) + len(EXTRA)
 KEYWORDS = set(k.lower() for k in oal.OALParser.keywords) | {'end'}
